@@ -134,7 +134,47 @@ def c08(k, ctx):
                        "declared dimensions above 20000 are not fed to the parser (property: moderate declared dimensions)"]
 
 
-PIPELINES = {"C08": c08, "C11": c11, "C02": c02, "C09": c09, "C17": c17}
+def c01(k, ctx):
+    ctx.rule = ("one case = one decode call on a freshly factory-built decoder: 36 names x seeded (matrix with row weight >= 2 up to 12x24 incl. duplicate rows, "
+                "4-cycles, degree-0/1 variables, disconnected parts) x 12 LLR classes (1e30, subnormal, 8-bit rounding boundaries, +-15.875, punctured zeros, "
+                "codewords, near-codewords, weak) x limits {0,1,2,5,50}; non-trivial = distinct (impl, rows, hard_in, limit) whose input sign pattern is NOT a codeword")
+    ctx.tlc_mc("MC_BP", "MC_BP_thorough.cfg" if ctx.thorough else "MC_BP.cfg")
+    ctx.vh("gen", "i2s")
+    recs, rej = ctx.validate("Trace_C01")
+    ctx.require_events("Decode")
+    import json as _j
+    for r in recs:
+        if r["o"] == "ok" and not (r["verdict"] == "ok" and r["iters"] == 0):
+            ctx.nontrivial_keys.add(k.key(r["impl"], r["rows"], r["hard_in"], r["limit"]))
+    ctx.extra["implementations"] = len({r["impl"] for r in recs})
+    ctx.extra["verdicts"] = {v: sum(1 for r in recs if r.get("verdict") == v) for v in ("ok", "err")}
+    ctx.extra["panics"] = sum(1 for r in recs if r["o"] != "ok")
+    ctx.samples = [k.sample_case(recs, 7), k.sample_case(recs, recs[-1]["i"])]
+    ctx.assumptions = ["TLC 1.8 + Json/IOUtils", "hard_in is the harness's projection llr <= 0.0 of the f64 input"]
+
+
+def c10(k, ctx):
+    ctx.rule = ("one case = one history of 5..20 decode calls on one long-lived factory-built decoder (36 names), mixing LLR classes, limits {0,1,3,20}, repeats of earlier "
+                "arguments and forced limit-0 calls after iterating frames; each call is also made on a fresh decoder; non-trivial = distinct (impl, rows, key) calls at "
+                "step >= 1 whose previous call in the history ran at least one iteration")
+    ctx.tlc_mc("MC_BP", "MC_BP_hist_thorough.cfg" if ctx.thorough else "MC_BP_hist.cfg")
+    ctx.tlc_mc("MC_BP", "MC_BP_hist_neg.cfg", expect_violation=True)     # flooding initialize() without output reset (as found, D4)
+    ctx.vh("gen", "i2s")
+    recs, rej = ctx.validate("Trace_C10")
+    ctx.require_events("Call")
+    prev = None
+    for r in recs:
+        if r["o"] == "ok" and prev is not None and prev["i"] == r["i"] and prev["o"] == "ok" and prev["res"]["iters"] > 0:
+            ctx.nontrivial_keys.add(k.key(r["impl"], r["rows"], r["key"]))
+        prev = r
+    ctx.extra["implementations"] = len({r["impl"] for r in recs})
+    ctx.extra["limit0_after_iterating"] = sum(1 for a, b in zip(recs, recs[1:]) if a["i"] == b["i"] and a["o"] == "ok" and b["o"] == "ok"
+                                              and a["res"]["iters"] > 0 and b["limit"] == 0)
+    ctx.samples = [k.sample_case(recs, 3, 3)]
+    ctx.assumptions = ["TLC 1.8 + Json/IOUtils", "the fresh-decoder reference is built from a clone of the same matrix by the same factory name"]
+
+
+PIPELINES = {"C01": c01, "C10": c10, "C08": c08, "C11": c11, "C02": c02, "C09": c09, "C17": c17}
 NOT_YET = {}
 
 
